@@ -1240,7 +1240,7 @@ impl std::ops::Add<i32> for Length {
         match self.0 {
             UNDEFINED_LEN => Length::UNDEFINED,
             len => {
-                let o = (len as i32 + rhs) as u32;
+                let o = len.wrapping_add_signed(rhs);
                 debug_assert!(
                     o != UNDEFINED_LEN,
                     "integer overflow (0xFFFF_FFFF reserved for undefined length)"
@@ -1292,7 +1292,7 @@ impl std::ops::SubAssign<i32> for Length {
         match self.0 {
             UNDEFINED_LEN => (), // no-op
             len => {
-                self.0 = (len as i32 - rhs) as u32;
+                self.0 = len.wrapping_add_signed(rhs.wrapping_neg());
                 debug_assert!(
                     self.0 != UNDEFINED_LEN,
                     "integer overflow (0xFFFF_FFFF reserved for undefined length)"
